@@ -428,7 +428,7 @@ def build_objects(inst, variant=None):
         kw[key] = (float(kw[key][0]), float(kw[key][1]))
   par = tbrmmdesignparameters.TBRMMDesignParameters(**kw)
   data = tbrmmdata.TBRMMData(df, 'response', elig_obj)
-  if inst['id'] % 5 == 2 and not variant:
+  if variant.get('preindex', inst['id'] % 5 == 2 and set(variant) <= {'keep', 'no_events'}):
     # the user has looked at the data object first: a geo index (all assignable geos in row order, which is what a
     # searcher will install when nothing is screened out) is already set and the aggregates have been read
     try:
